@@ -398,6 +398,9 @@ class SStr(Sym):
         if isinstance(k, slice):
             if k.step is not None and k.step != 1:
                 raise Unreached('extended slice on symbolic string')
+            r = self._hook('slice', k.start, k.stop)
+            if r is not NotImplemented:
+                return r
             a, ln = _slice_bounds(n, k.start, k.stop)
             return mk_str(z3.SubString(self.t, a, ln), self.kind)
         i = _i(k)
@@ -922,7 +925,8 @@ class Ctx:
     def check(self, name: str, cond: Any, **meta: Any) -> None:
         if not self.in_new_territory():
             # already checked by the run that spawned this prefix
-            self.assume(cond)
+            if not meta.get('no_assume'):
+                self.assume(cond)
             return
         ob = Obligation(name, path_sig(self.labels))
         ob.decisions = list(self.decisions)
@@ -957,7 +961,8 @@ class Ctx:
             s2.add(*self.pc)
             s2.add(z3.Not(t))
             ob.smt2 = '(set-logic ALL)\n' + s2.to_smt2()
-        self.assume(cond)
+        if not meta.get('no_assume'):
+            self.assume(cond)
 
     def cover(self, name: str) -> None:
         """Reachability canary: this point must be reachable on some path."""
